@@ -396,7 +396,7 @@ def main():
     if update:
         json.dump(golden, open(GOLDEN, 'w'), indent=1)
     n_t = sum(1 for v in status['functions'].values() if v['tie'] == 'translated')
-    print('gen: %d/%d functions translated, changed=%s, tables=%s' % (n_t, len(SPECS), changed, status['tables']))
+    print('gen: %d/%d functions translated, changed=%s, tables=%s' % (n_t, len(status['functions']), changed, status['tables']))
     for k, v in status['functions'].items():
         if v['tie'] != 'translated':
             print('  fallback to golden: %s (%s)' % (k, v['reason']))
